@@ -983,11 +983,14 @@ struct HistOut {
     applicable: Vec<u8>,
     shadow_errors: Vec<String>,
     trace_digest: Vec<u64>,
+    /// filled by the explorer when it compacts a result (canon text and early steps dropped)
+    canon_h: u64,
+    sample: Option<Value>,
 }
 
 async fn replay(mode: Mode, start: Start, hist: &[u8]) -> Result<HistOut, RunErr> {
     let mut w = World::build(mode, start).await?;
-    let mut out = HistOut { steps: vec![], found: vec![], na_at: None, canon: String::new(), applicable: vec![], shadow_errors: vec![], trace_digest: vec![] };
+    let mut out = HistOut { steps: vec![], found: vec![], na_at: None, canon: String::new(), applicable: vec![], shadow_errors: vec![], trace_digest: vec![], canon_h: 0, sample: None };
     for (i, &l) in hist.iter().enumerate() {
         let pre = snap(&w.pc);
         let exp = w.rf.expect(l);
@@ -1170,10 +1173,33 @@ fn explore(c: &Combo, rep_found: &mut Vec<(Mode, Start, Vec<u8>, Found)>) -> Com
             }
         }
         let (mode, start) = (c.mode, c.start);
+        let sample_len = c.d1.min(4);
         let results: Vec<(usize, Vec<u8>, Result<HistOut, RunErr>)> = cands
             .into_par_iter()
             .map(|(pi, h)| {
-                let r = run_history(mode, start, &h);
+                // compact the result: hundreds of thousands of them are held per level
+                let r = run_history(mode, start, &h).map(|mut o| {
+                    o.canon_h = vh::fnv1a(o.canon.as_bytes());
+                    o.canon = String::new();
+                    let distinct_letters = h.iter().collect::<BTreeSet<_>>().len() == h.len();
+                    let posts: BTreeSet<&str> = o.steps.iter().map(|s| st_name(s.post)).collect();
+                    if h.len() == sample_len && distinct_letters && posts.len() >= 2 && o.steps.iter().filter(|s| s.res.is_ok()).count() >= 2 && o.steps.iter().any(|s| !s.res.is_ok()) && !h.contains(&L_CLOSE) {
+                        o.sample = Some(json!({
+                            "mode": mode.name(), "start": start.name(),
+                            "history": hist_names(&h),
+                            "steps": o.steps.iter().map(|s| json!({
+                                "call": LETTER_NAMES[s.letter as usize], "pre": st_name(s.pre), "post": st_name(s.post),
+                                "expected": format!("{:?}", s.exp), "result": s.res.class(), "verdict": s.verdict,
+                            })).collect::<Vec<_>>(),
+                        }));
+                    }
+                    if o.steps.len() > 1 {
+                        let n = o.steps.len();
+                        o.steps.drain(..n - 1);
+                    }
+                    o.found.retain(|f| f.step + 1 == h.len());
+                    o
+                });
                 (pi, h, r)
             })
             .collect();
@@ -1219,20 +1245,13 @@ fn explore(c: &Combo, rep_found: &mut Vec<(Mode, Start, Vec<u8>, Found)>) -> Com
                     rep_found.push((mode, start, h.clone(), f.clone()));
                 }
             }
-            let ch = vh::fnv1a(o.canon.as_bytes());
+            let ch = o.canon_h;
             succ_maps.entry(pi).or_default().insert(*h.last().unwrap(), (ch, last.verdict.clone()));
             let is_new = !st.states.contains(&ch);
-            let distinct_letters = h.iter().collect::<BTreeSet<_>>().len() == h.len();
-            let posts: BTreeSet<&str> = o.steps.iter().map(|s| st_name(s.post)).collect();
-            if st.samples.is_empty() && h.len() == c.d1.min(4) && distinct_letters && posts.len() >= 2 && o.steps.iter().filter(|s| s.res.is_ok()).count() >= 2 && o.steps.iter().any(|s| !s.res.is_ok()) && !h.contains(&L_CLOSE) {
-                st.samples.push(json!({
-                    "mode": mode.name(), "start": start.name(),
-                    "history": hist_names(&h),
-                    "steps": o.steps.iter().map(|s| json!({
-                        "call": LETTER_NAMES[s.letter as usize], "pre": st_name(s.pre), "post": st_name(s.post),
-                        "expected": format!("{:?}", s.exp), "result": s.res.class(), "verdict": s.verdict,
-                    })).collect::<Vec<_>>(),
-                }));
+            if st.samples.is_empty() {
+                if let Some(v) = o.sample.clone() {
+                    st.samples.push(v);
+                }
             }
             if level <= c.d1 {
                 if level < c.d2 {
